@@ -2,7 +2,7 @@
    Property theorems only (each closed by [exact] of a lemma of IndexProofs.v),
    non-vacuity examples, regression witnesses of the repaired defects, and
    Print Assumptions.  Model: Index.v (types/manifest.go). *)
-From Olareg Require Import IndexInv Base Index IndexProofs.
+From Olareg Require Import IndexInv Base Index IndexProofs ChildPersist.
 Local Open Scope list_scope.
 
 (* every finite sequence of AddDesc / RmDesc / AddChildren, over any universe of
@@ -86,3 +86,18 @@ Theorem C18_add_unique : forall d cs i i', unique (top i) -> add_desc d cs i = O
 Proof. exact add_desc_unique. Qed.
 Theorem C18_rm_unique : forall d i i', unique (top i) -> rm_desc d i = Ok i' -> unique (top i').
 Proof. exact rm_desc_unique. Qed.
+
+(* "recorded as children" over histories: a digest handed to AddChildren is found by digest after ANY further sequence of
+   insertions, removals and AddChildren that is not about that digest itself (an insertion of it at the top level, or its
+   removal by digest): insertions and removals of other digests, removals by tag or subject alone and removals of a tag of it
+   never take a recorded child away *)
+Theorem C18_recorded_child_found : forall c cs ops i i',
+  In c cs -> dvalid (d_dig c) = true ->
+  apply_ops ops (add_children cs i) = Ok i' -> Forall (fun o => ~ op_about o (d_dig c)) ops ->
+  get_desc (d_dig c) i' <> None.
+Proof. exact recorded_child_found. Qed.
+Print Assumptions C18_recorded_child_found.
+
+Theorem C18_child_kept_by_other_ops : forall o i i' g,
+  apply_op o i = Ok i' -> child_has g (child i) -> ~ op_about o g -> child_has g (child i').
+Proof. exact op_child_keeps. Qed.
